@@ -25,6 +25,7 @@ type WOp struct {
 
 type WCase struct {
 	Ops []WOp `json:"ops"`
+	API bool  `json:"api,omitempty"` // library calls only (no CLI process): hash = Checksum + WriteSumFile, validation = migrate.Validate
 }
 
 type WOutcome struct {
@@ -50,6 +51,19 @@ func checkWriters(c WCase) (WOutcome, error) {
 	sqlNames := func() []string {
 		m, _ := filepath.Glob(filepath.Join(mdir, "*.sql"))
 		return m
+	}
+	// refValid decides, with the harness' own implementation of the sum format, whether the files on disk match the sum file on disk
+	refValid := func() bool {
+		var fs []File
+		for _, n := range sqlNames() {
+			b, _ := os.ReadFile(n)
+			fs = append(fs, File{Name: filepath.Base(n), Data: b})
+		}
+		sum, err := os.ReadFile(filepath.Join(mdir, "atlas.sum"))
+		if os.IsNotExist(err) {
+			return len(fs) == 0 // documented: no sum file and no migration files yet is fine
+		}
+		return err == nil && string(sum) == modelSum(fs)
 	}
 	for step, op := range c.Ops {
 		switch op.Kind {
@@ -102,10 +116,34 @@ func checkWriters(c WCase) (WOutcome, error) {
 				return out, fmt.Errorf("step %d: migrate new failed on a valid directory: %v", step, r)
 			}
 		case "hash":
-			if r := sb.Run("migrate", "hash", "--dir", "file://m"); r.Code != 0 {
+			if c.API {
+				// what `migrate hash` does
+				sum, err := dir.Checksum()
+				if err != nil {
+					return out, fmt.Errorf("step %d: Checksum: %v", step, err)
+				}
+				if err := migrate.WriteSumFile(dir, sum); err != nil {
+					return out, fmt.Errorf("step %d: WriteSumFile: %v", step, err)
+				}
+			} else if r := sb.Run("migrate", "hash", "--dir", "file://m"); r.Code != 0 {
 				return out, fmt.Errorf("step %d: migrate hash failed: %v", step, r)
 			}
 			valid = true
+		case "rewrite":
+			// an Atlas writer replaces an existing file by a shorter one (LocalDir.WriteFile), then the directory is re-hashed
+			names := sqlNames()
+			if len(names) == 0 {
+				continue
+			}
+			f := filepath.Base(names[op.File%len(names)])
+			body := fmt.Sprintf("-- r%d\n", step)
+			if err := dir.WriteFile(f, []byte(body)); err != nil {
+				return out, fmt.Errorf("step %d: WriteFile: %v", step, err)
+			}
+			if b, _ := os.ReadFile(filepath.Join(mdir, f)); string(b) != body {
+				return out, fmt.Errorf("step %d: LocalDir.WriteFile(%q, %q) left the file with content %q", step, f, body, b)
+			}
+			valid = refValid()
 		case "diff":
 			tables++
 			schema := ""
@@ -157,7 +195,7 @@ func checkWriters(c WCase) (WOutcome, error) {
 			switch op.Tamper {
 			case "add":
 				os.WriteFile(filepath.Join(mdir, "0_sneaky.sql"), []byte("DROP TABLE x;\n"), 0o644)
-				valid = false
+				valid = refValid()
 			default:
 				if len(names) == 0 {
 					continue
@@ -167,13 +205,18 @@ func checkWriters(c WCase) (WOutcome, error) {
 				switch {
 				case op.Tamper == "remove":
 					os.Remove(f)
+				case op.Tamper == "truncate":
+					os.WriteFile(f, b[:len(b)/2], 0o644)
+				case op.Tamper == "rename-shorter":
+					os.Rename(f, filepath.Join(mdir, fmt.Sprintf("%d.sql", 900+op.Off)))
 				case op.Tamper == "flip" && len(b) > 0:
 					b[op.Off%len(b)] ^= 0x20
 					os.WriteFile(f, b, 0o644)
 				default:
 					os.WriteFile(f, append(b, "-- x\n"...), 0o644)
 				}
-				valid = false
+				// a tampering may be a no-op (truncating an empty file) or touch only what the sum file does not protect
+				valid = refValid()
 			}
 			if b, err := os.ReadFile(filepath.Join(mdir, "0_sneaky.sql")); op.Tamper == "add" && (err != nil || len(b) == 0) {
 				return out, fmt.Errorf("harness: tamper add")
@@ -189,6 +232,14 @@ func checkWriters(c WCase) (WOutcome, error) {
 		}
 		if !valid && !isChecksumErr(err) {
 			return out, fmt.Errorf("step %d (%s): directory was tampered with but Validate says %v", step, op.Kind, err)
+		}
+		if c.API {
+			if valid {
+				out.Keys = append(out.Keys, "api/valid-after-"+op.Kind)
+			} else {
+				out.Keys = append(out.Keys, fmt.Sprintf("api/tampered-after-%s-%s", op.Kind, op.Tamper))
+			}
+			continue
 		}
 		r := sb.Run("migrate", "validate", "--dir", "file://m")
 		if valid != (r.Code == 0) {
